@@ -28,7 +28,7 @@ LEVEL = "exploration"
 TECHNIQUE = META["C15"]["technique"]
 RULE = (
     "execution = (2..8 runs, 1..8 workers, single target or two same-kind targets, cold / warm plugin cache, with / "
-    "without storage, get_array / get_df / make, optional failing run with / without ignore_errors, schedule mode "
+    "without storage, get_array / get_df / make, no / one / many failing runs with / without ignore_errors, schedule mode "
     "in {1 us switch interval, default interval, line-level yield injection with a seed}); distinct by hash of "
     "the configuration incl. the mode seed; non-trivial = >= 2 runs and >= 2 workers and the call returned or "
     "raised as classified"
@@ -72,7 +72,7 @@ def plugins():
             return chunk_i < 2
 
         def compute(self, chunk_i):
-            if self.run_id == self.config["bad_run"]:
+            if self.run_id in self.config["bad_run"].split(","):
                 raise ValueError(f"run {self.run_id} is broken")
             rows = run_rows(int(self.run_id))
             a = np.zeros(len(rows), dtype=dtf("v0"))
@@ -172,7 +172,7 @@ def expected(runs, targets, bad, ignore):
     st = context(None)
     out = []
     for r in sorted(runs):
-        if r == bad:
+        if r in bad.split(","):
             if ignore:
                 continue
             return None
@@ -185,12 +185,16 @@ def expected(runs, targets, bad, ignore):
 
 def gen_cfg(seed, idx):
     rng = random.Random(f"{seed}:c15:{idx}")
-    nruns = rng.randint(2, 8)
+    nruns = rng.randint(2, 10)
     runs = [str(r) for r in rng.sample(range(0, 30), nruns)]
-    bad = rng.choice(runs) if rng.random() < 0.2 else ""
-    return {"runs": runs, "workers": rng.randint(1, 8), "targets": rng.choice([["pa"], ["pa"], ["pa", "pb"], ["ev", "pb"]]),
+    bad = ""
+    if rng.random() < 0.4:
+        # one failing run, or many of them (at least one healthy run stays)
+        nb = 1 if rng.random() < 0.4 else rng.randint(1, nruns - 1)
+        bad = ",".join(rng.sample(runs, nb))
+    return {"runs": runs, "workers": rng.choice([1, 1, 1, 2, 2, 3, 4, 8]), "targets": rng.choice([["pa"], ["pa"], ["pa", "pb"], ["ev", "pb"]]),
             "warm": rng.random() < 0.5, "storage": rng.random() < 0.5, "api": rng.choice(["get_array", "get_array", "get_df", "make"]),
-            "bad": bad, "ignore": bool(bad) and rng.random() < 0.5,
+            "bad": bad, "ignore": bool(bad) and rng.random() < 0.6,
             "mode": rng.choice(["switch", "switch", "yield", "default"]), "mode_seed": rng.randint(0, 10 ** 6)}
 
 
@@ -211,7 +215,7 @@ def run_cfg(cfg):
         tg = tuple(cfg["targets"]) if len(cfg["targets"]) > 1 else cfg["targets"][0]
         if cfg["warm"]:
             with common.quiet():
-                good = [r for r in cfg["runs"] if r != cfg["bad"]]
+                good = [r for r in cfg["runs"] if r not in cfg["bad"].split(",")]
                 st.get_array(good[0], tg, progress_bar=False)
         want = expected(cfg["runs"], tg, cfg["bad"], cfg["ignore"]) if cfg["api"] != "make" else None
         old = sys.getswitchinterval()
@@ -257,7 +261,7 @@ def run_cfg(cfg):
                 add("exception", f"parallel call failed: {exc!r}", exc)
         else:
             if must_raise:
-                add("swallowed", f"run {cfg['bad']} fails but the parallel call returned normally")
+                add("swallowed", f"run(s) {cfg['bad']} fail(s) but the parallel call returned normally")
             elif cfg["api"] != "make":
                 cnt["results_compared"] = 1
                 got = res
@@ -272,7 +276,7 @@ def run_cfg(cfg):
             elif cfg["storage"]:
                 fresh = context(d)
                 for r in cfg["runs"]:
-                    if r == cfg["bad"]:
+                    if r in cfg["bad"].split(","):
                         continue
                     for t in cfg["targets"]:
                         if not fresh.is_stored(r, t):
